@@ -4,7 +4,8 @@ Oracle driver for C06.  Header: `trie <hexpattern>…` (or `raw …`: no build).
 `panic`.  A text / replacement `^` is the previous result of `mask`/`replace` (fed back in).
 History ops `insert <hex>` / `build`, the structural `dump`, the driver state and the loop are
 those of the C05 driver; `sibling <hexpat> <hextext>` answers `Replace(text, "#")` on an
-independent second trie built from the one pattern.
+independent second trie built from the one pattern.  In big mode (`DState.big`) the scopes come
+from the pointer model's `find` (`c06_pointer_refines`).
 -/
 import Golib.Model.C06Replace
 import Golib.Model.C05
@@ -15,6 +16,7 @@ open Golib.Proto Golib.C05
 def runOp (s : DState) (ts : List String) : Option (Option (String × Option (List Nat))) :=
   match ts with
   | ["dump"] => some ((pDumpLine s.pt).map fun o => (o, none))
+  | ["dumpc"] => some ((pDumpCompact s.pt).map fun o => (o, none))
   | ["sibling", pat, text] =>
     match argBytes s pat, argBytes s text with
     | some p, some x =>
@@ -22,11 +24,15 @@ def runOp (s : DState) (ts : List String) : Option (Option (String × Option (Li
     | _, _ => none
   | ["mask", text, m] =>
     match argBytes s text, m.toInt? with
-    | some bs, some mask => some ((replaceWithMask s.t bs mask).map fun r => (hex r, some r))
+    | some bs, some mask =>
+      some ((if s.big then (s.pt.find bs).bind fun sc => (mergeScopes sc).bind fun m => maskLoop bs mask m 0 []
+             else replaceWithMask s.t bs mask).map fun r => (hex r, some r))
     | _, _ => none
   | ["replace", text, repl] =>
     match argBytes s text, argBytes s repl with
-    | some bs, some rp => some ((replace s.t bs rp).map fun r => (hex r, some r))
+    | some bs, some rp =>
+      some ((if s.big then (s.pt.find bs).bind fun sc => (mergeScopes sc).bind fun m => replLoop bs rp m 0 []
+             else replace s.t bs rp).map fun r => (hex r, some r))
     | _, _ => none
   | _ => none
 
